@@ -114,12 +114,18 @@ def _fuzz_one(ctx, e, j, runs, guard):
     stats_sum = {}
     wall_cap = 5400 if ctx['tier'] == 'thorough' else 1200
     triaged = set()
-    while remaining > 0 and restarts <= MAX_RESTARTS:
-        stats = os.path.join(wd, 'stats%s.%d.txt' % (tagn, restarts))
-        logp = os.path.join(wd, 'fuzz%s.%d.log' % (tagn, restarts))
-        env = _fuzz_env(ctx, e, tmp, side, stats, guard, dump=corp if restarts == 0 else None)
-        cmd = [ctx['bin'], corp, '-runs=%d' % remaining, '-seed=%d' % (ctx['seed'] + 1 + 7919 * restarts + 104729 * j), '-max_len=4096', '-timeout=10',
-               '-dict=' + dictp, '-artifact_prefix=' + art, '-print_final_stats=1', '-rss_limit_mb=3000']
+    detect_leaks = 1
+    launches = 0
+    rc = 0
+    while remaining > 0 and restarts <= MAX_RESTARTS and launches < 400:
+        stats = os.path.join(wd, 'stats%s.%d.txt' % (tagn, launches))
+        logp = os.path.join(wd, 'fuzz%s.%d.log' % (tagn, launches))
+        env = _fuzz_env(ctx, e, tmp, side, stats, guard, dump=corp if launches == 0 else None)
+        # while the tree leaks, the leaked memory piles up in the fuzzing process: run in slices that stay below the RSS limit
+        this_runs = remaining if detect_leaks else min(remaining, 6000)
+        cmd = [ctx['bin'], corp, '-runs=%d' % this_runs, '-seed=%d' % (ctx['seed'] + 1 + 7919 * launches + 104729 * j), '-max_len=4096', '-timeout=10',
+               '-dict=' + dictp, '-artifact_prefix=' + art, '-print_final_stats=1', '-rss_limit_mb=4000', '-detect_leaks=%d' % detect_leaks]
+        launches += 1
         with open(logp, 'wb') as lf:
             try:
                 r = subprocess.run(cmd, stdout=lf, stderr=subprocess.STDOUT, env=env, cwd=tmp, timeout=wall_cap)
@@ -140,8 +146,8 @@ def _fuzz_one(ctx, e, j, runs, guard):
             _inconclusive(ctx, 'libFuzzer %s: wall cap %ds reached after %d execs' % (ENTRIES[e], wall_cap, tot_execs))
             break
         if rc == 0:
-            remaining = 0
-            break
+            remaining -= max(ex, this_runs)
+            continue
         # the process stopped on a finding: triage every new artifact by re-running it singly
         new = [a for a in sorted(glob.glob(art + '*')) if a not in triaged]
         if not new:
@@ -151,6 +157,12 @@ def _fuzz_one(ctx, e, j, runs, guard):
         for a in new:
             triaged.add(a)
             data = open(a, 'rb').read()
+            if os.path.basename(a).startswith('leak-') and detect_leaks:
+                # a leak stops libFuzzer at once; it is reported below, and the rest of this entry point's budget runs without libFuzzer's leak
+                # pass (leaks are attributed per case by h_read's asan stages)
+                detect_leaks = 0
+                _cnt(ctx, 'fuzz.leak_detection_switched_off')
+                _inconclusive(ctx, 'libFuzzer %s: a leak was found; the remaining runs of this entry point use -detect_leaks=0' % ENTRIES[e])
             env1 = _fuzz_env(ctx, e, tmp, side, stats + '.triage', guard)
             try:
                 r1 = subprocess.run([ctx['bin'], a, '-timeout=10', '-rss_limit_mb=3000'], stdout=subprocess.PIPE, stderr=subprocess.STDOUT, env=env1, cwd=tmp, timeout=120)
